@@ -16,7 +16,7 @@ static const char *cfg_txt[3]; static int cfg_set;
 
 void env_reset(void) {
 	env_log_to_stderr = getenv("VERIF_LOG") != NULL;
-	in_head = in_tail = 0; consumed = 0; out_len = 0; nwr = 0;
+	in_head = in_tail = 0; consumed = 0; out_len = 0; nwr = 0; env_write_yields = 0;
 	if (!outb) outb = malloc(ENV_OUT_MAX);
 	if (!wr) wr = malloc(sizeof(env_write_t) * ENV_WR_MAX);
 	env_on_write = NULL; cfg_set = 0; cfg_txt[0] = cfg_txt[1] = cfg_txt[2] = NULL;
@@ -41,8 +41,10 @@ void env_push_quiet(const uint8_t *b, size_t n) {
 void env_push(const uint8_t *b, size_t n) { env_push_quiet(b, n); vs_point(); }
 void env_push_nobyte(void) { inq[in_tail % ENV_IN_MAX] = ENV_NOBYTE; in_tail++; }
 
+int env_write_yields;   /* 1: the write callback is a scheduling point before it consumes the bytes (a write that blocks on a slow serial port: other threads run while this one sits in the callback) */
 void env_write(uint8_t *buf, int32_t len) {
 	if (len < 0) len = 0;
+	if (env_write_yields && vs_active()) vs_point();
 	if (nwr < ENV_WR_MAX && out_len + (size_t) len <= ENV_OUT_MAX) {
 		wr[nwr].off = (uint32_t) out_len; wr[nwr].len = (uint32_t) len;
 		wr[nwr].tid = (uint8_t) vs_self_id(); wr[nwr].t_us = vs_now_us();
